@@ -140,6 +140,18 @@ func nsCalls(baseName string) []fsx.Call {
 		cs = append(cs, fsx.Call{Op: "Glob", A: g})
 	}
 
+	// (round 12) the "does nothing" value of the arguments of the PATH calls, as
+	// for the File calls (fileNoopCalls): a wrapper that answers them itself
+	// ("nothing to change") skips the failure function and the base's own
+	// verdict on the path. On a name that exists and on one that does not.
+	for _, p := range []string{"/d/f", "/d/e", "/nope/x"} {
+		cs = append(cs,
+			fsx.Call{Op: "Chown", A: p, N: -1, M: -1},
+			fsx.Call{Op: "Lchown", A: p, N: -1, M: -1},
+			fsx.Call{Op: "Rename", A: p, B: p},
+		)
+	}
+
 	cs = append(cs,
 		fsx.Call{Op: "Truncate", A: "/d/f", N: -1},
 		// argument values that select a DEFAULT (empty dir: the temp directory of the
